@@ -11,7 +11,9 @@ import (
 	"path/filepath"
 	"runtime"
 	"sort"
+	"sync/atomic"
 	"testing"
+	"time"
 
 	"github.com/gethiox/HIDI/internal/pkg/logger"
 )
@@ -55,6 +57,9 @@ type c18Run struct {
 	Err   string    `json:"err"`   // "" = nil error
 	Panic string    `json:"panic"` // "" = no panic
 	Tree  []c18Node `json:"tree"`
+	// LogBlocked: the call queued more log messages than the logger's channel holds (128) and blocked - in main() nothing reads that
+	// channel before the upkeep has finished, so there it would block forever; here it was released after 4 s
+	LogBlocked bool `json:"log_blocked"`
 }
 
 type c18Res struct {
@@ -123,6 +128,37 @@ func c18Template() ([]c18Node, error) {
 }
 
 func c18Call() (res c18Run) {
+	for drained := false; !drained; { // as in main(): the channel is empty when the upkeep starts, and nobody reads it while it runs
+		select {
+		case <-logger.Messages:
+		default:
+			drained = true
+		}
+	}
+	finished := make(chan struct{})
+	var blocked atomic.Bool
+	go func() {
+		select {
+		case <-finished:
+			return
+		case <-time.After(4 * time.Second):
+		}
+		if len(logger.Messages) < cap(logger.Messages) {
+			return // slow, but not blocked on the log channel
+		}
+		blocked.Store(true)
+		for {
+			select {
+			case <-logger.Messages:
+			case <-finished:
+				return
+			}
+		}
+	}()
+	defer func() {
+		close(finished)
+		res.LogBlocked = blocked.Load()
+	}()
 	defer func() {
 		if r := recover(); r != nil {
 			res.Panic = fmt.Sprint(r)
@@ -141,18 +177,6 @@ func verifC18(t *testing.T) {
 	defer runtime.UnlockOSThread()
 	var in c18In
 	c18ReadJSON(t, &in)
-	// the logger's channel has capacity 128: drain it or every log.Info blocks
-	stop := make(chan struct{})
-	go func() {
-		for {
-			select {
-			case <-logger.Messages:
-			case <-stop:
-				return
-			}
-		}
-	}()
-	defer close(stop)
 
 	out := c18Out{ConfDir: configDir, Results: []c18Res{}}
 	tmpl, err := c18Template()
